@@ -22,9 +22,9 @@ FLOORS = {'quick': dict({'probes': 20000, 'gate_closed_checks': 6000, 'gate_open
                          'parameter_checks': 2000, 'no_effect_checks': 8000, 'cells_covered': 600},
                         **{f'probes_{s}': 150 for s in STATES if s not in ('FINAL', 'OFF')}),
           'thorough': dict({'probes': 400000, 'gate_closed_checks': 120000, 'gate_open_checks': 160000,
-                            'parameter_checks': 40000, 'no_effect_checks': 160000, 'cells_covered': 800},
+                            'parameter_checks': 40000, 'no_effect_checks': 160000, 'cells_covered': 640},
                            **{f'probes_{s}': 3000 for s in STATES if s not in ('FINAL', 'OFF')})}
-COUNT = {'quick': 320, 'thorough': 6000}
+COUNT = {'quick': 320, 'thorough': 4500}
 BUDGET_S = {'quick': 55, 'thorough': 540}
 KNOBS = {}
 
